@@ -20,8 +20,9 @@ import time
 HERE = os.path.dirname(os.path.abspath(__file__))
 REQ = ['Evo.Independence']
 FN = 'verdicts'
-NVERD = 9
-CLAUSES = ['CRepeat', 'CHashSeed', 'CProgress', 'CLogging', 'CWorkers', 'CWorkersFrom2', 'CWorkersIsolated', 'CFacade']
+NVERD = 10
+CLAUSES = ['CRepeat', 'CHashSeed', 'CProgress', 'CLogging', 'CWorkers', 'CWorkersFrom2', 'CWorkersIsolated', 'CFacade',
+           'CWorkersRepeat']
 HASH_SENSITIVE_CROSSOVERS = {'one_point', 'exchange_parents_one', 'exchange_parents_both', 'subgraph'}
 
 
@@ -386,7 +387,7 @@ def case_to_coq(replay, base_x, others):
 # configurations
 # -------------------------------------------------------------------------------------------------
 CROSSOVERS = [['one_point'], ['subtree'], ['exchange_parents_one'], ['subtree', 'one_point'], ['exchange_edges'],
-              ['exchange_parents_both'], ['none'], ['exchange_edges', 'exchange_parents_one']]
+              ['exchange_parents_both'], ['none'], ['exchange_edges', 'exchange_parents_one'], ['subgraph']]
 MUTATIONS = [['single_add', 'single_change', 'single_drop', 'single_edge'], ['simple', 'growth', 'reduce'],
              ['single_add', 'tree_growth', 'local_growth'], ['single_edge', 'single_drop', 'single_add'], ['single_change']]
 SCHEMES = ['generational', 'steady_state', 'parameter_free']
@@ -446,7 +447,8 @@ def build_groups(ctx):
         cfg['crossover'] = [['subtree'], ['exchange_edges'], ['none']][i % 3]   # hash order is examined by the other family
         g = {'name': 'p%d' % i, 'family': 'parallel', 'cfg': cfg}
         g['runs'] = [('base', None, {'n_jobs': 1}), ('j2', 'CWorkers', {'n_jobs': 2}), ('j4', 'CWorkers', {'n_jobs': 4}),
-                     ('i1', None, {'n_jobs': 1, 'isolate_joblib': True}), ('i2', 'CWorkersIsolated', {'n_jobs': 2, 'isolate_joblib': True})]
+                     ('i1', None, {'n_jobs': 1, 'isolate_joblib': True}), ('i2', 'CWorkersIsolated', {'n_jobs': 2, 'isolate_joblib': True}),
+                     ('j2r', 'CWorkersRepeat', {'n_jobs': 2})]
         if ctx.tier == 'thorough' and i % 2 == 0:
             g['runs'].append(('i4', 'CWorkersIsolated', {'n_jobs': 4, 'isolate_joblib': True}))
         groups.append(g)
@@ -457,7 +459,8 @@ def build_groups(ctx):
         g = {'name': 'f%d' % i, 'family': 'facade', 'cfg': cfg}
         g['runs'] = [('base', None, {}), ('repeat', 'CFacade', {}), ('hash', 'CHashSeed', {'hashseed': 3}),
                      ('progress', 'CFacade', {'show_progress': True}), ('logging', 'CFacade', {'log_level': 10}),
-                     ('njobs', 'CWorkers', {'facade_n_jobs': 2})]
+                     ('j2', 'CWorkers', {'facade_n_jobs': 2}),
+                     ('j2r', 'CWorkersRepeat', {'facade_n_jobs': 2})]
         groups.append(g)
     return groups
 
@@ -512,6 +515,13 @@ def first_difference(a, b):
     return 'no difference found by the python side'
 
 
+def strip_nodes(x):
+    y = json.loads(json.dumps(x))
+    for r in y['inds']:
+        r['nodes'] = len(r['nodes'])
+    return y
+
+
 def build_case(group, results):
     """-> (coq case, base export, [(clause, run name, export)], notes)"""
     canon = Canon()
@@ -526,10 +536,16 @@ def build_case(group, results):
             sub_base = x
             continue
         others.append((clause, name, x))
-    coq_others = [(cl, x) for cl, _, x in others if cl != 'CWorkersIsolated']
+    side = ('CWorkersIsolated', 'CWorkersRepeat')
+    coq_others = [(cl, x) for cl, _, x in others if cl not in side]
     replay = replay_of(group, base, base_x) if group['family'] != 'facade' else None
     cases = [case_to_coq(replay, base_x, coq_others)]
-    tags = [('main', base_x, [(cl, n, x) for cl, n, x in others if cl != 'CWorkersIsolated'])]
+    tags = [('main', base_x, [(cl, n, x) for cl, n, x in others if cl not in side])]
+    j2 = [x for cl, n, x in others if n == 'j2']
+    j2r = [x for cl, n, x in others if n == 'j2r']
+    if j2 and j2r:          # two runs with 2 workers and one seed
+        cases.append(case_to_coq(None, j2[0], [('CWorkersRepeat', j2r[0])]))
+        tags.append(('wrepeat', j2[0], [('CWorkersRepeat', 'j2r', j2r[0])]))
     if group['family'] == 'parallel':
         j = [(n, x) for cl, n, x in others if n in ('j2', 'j4')]
         if len(j) == 2:     # 2 workers against 4
@@ -564,12 +580,17 @@ def judge(ctx, group, results, tags, verdicts):
                     'CWorkers': 'parallel mode: the history depends on n_jobs (1 against 2 / 4)',
                     'CWorkersFrom2': 'parallel mode: the history depends on n_jobs (2 against 4)',
                     'CWorkersIsolated': 'parallel mode, joblib identifiers kept off the seeded stream: the history depends on n_jobs',
-                    'CFacade': 'GOLEM facade: the history depends on repeat / show_progress / logging level / n_jobs'}[cl]
+                    'CFacade': 'GOLEM facade: the history depends on repeat / show_progress / logging level',
+                    'CWorkersRepeat': 'parallel mode, n_jobs=2: two runs with one seed give different histories'}[cl]
             if cl == 'CHashSeed':
                 known_ops = set(cfg.get('crossover', [])) & HASH_SENSITIVE_CROSSOVERS
                 key = 'C14.hashseed-dependence' if known_ops else 'C14.hashseed-dependence-other'
                 what += ' (crossover types %s iterate a set of nodes / node pairs: list(set(...)) then random.choice)' % sorted(known_ops) if known_ops else ''
-            if cl == 'CWorkers':
+            if cl in ('CWorkers', 'CWorkersRepeat') and bad and all(strip_nodes(x) == strip_nodes(base_x) for _, x in bad):
+                key = 'C14.worker-node-uids'
+                what += ('; the exports coincide except for the uids of graph nodes: with a non-identity adapter the evaluated graph '
+                         'is adapted again inside the worker process, whose os.urandom is not the seeded replacement')
+            elif cl == 'CWorkers':
                 ur1 = results[0].get('urandom', {})
                 ur2 = next((r.get('urandom', {}) for r in results if r['job']['clause'] == 'CWorkers'), {})
                 j1 = sum(v for k, v in ur1.items() if k.startswith('joblib:'))
